@@ -72,6 +72,7 @@ type wrapFE struct {
 	region   termemu.Region
 	live     bool // record callbacks
 	cutSeen  bool // a rendered range cut a wide glyph
+	cutRows  map[int]bool // the rows on which that happened since the last Attach (the damage stays in its row)
 	pieces   bool // grapheme mode: at some callback a row held text that segments into other cells (KF-C11-grapheme-pieces)
 	mode     termemu.TextReadMode
 }
@@ -143,6 +144,10 @@ func (f *wrapFE) dump(y, y2 int, rc termemu.Region, withSpans bool) {
 		rightCut := rc.X2 < s.W && at(s, rc.X2, yy).Width == 0
 		if (leftCut && (rc.X == ar.X || !s.Grid)) || (rightCut && rc.X2 == ar.X2) {
 			f.cutSeen = true
+			if f.cutRows == nil {
+				f.cutRows = map[int]bool{}
+			}
+			f.cutRows[yy] = true
 		}
 		l := t.StyledLine(rc.X, rc.X2-rc.X, yy)
 		fmt.Fprintf(f.cases, "146 %d", yy)
@@ -236,6 +241,11 @@ func genText(r *rng, wide, comb bool) string {
 		// (a joiner after a character that is not an emoji leaves a cell whose text segments into two clusters - the
 		// known finding KF-C11-grapheme-pieces - so it is the rarest choice)
 		sb.WriteString([]string{"\u0301", "\u0308", "\u0301", "\ufe0f", "\u0301\u0302", "\u0323", "\u0308\u0301", "\u0300", "\u0302", "\u200d\U0001f4bb"}[r.n(10)])
+	}
+	if comb && wide && r.chance(1, 5) {
+		// a double-width character, an escape sequence, then a mark: the mark is merged into the wide character
+		// (seeded change C11-m7: the merge announced one cell of the two)
+		sb.WriteString(wideRunes[r.n(len(wideRunes))] + genSGR(r) + []string{"\u0301", "\u0308", "\u0323"}[r.n(3)])
 	}
 	for i := 0; i < n; i++ {
 		switch {
@@ -553,6 +563,7 @@ func runCase(id string, seed uint64, grid bool, mode int, nops int, wide, comb b
 			// the outer terminal starts from the prefill again
 			feedAll(outer, obe, prefill(ow, oh))
 			wf.cutSeen = false
+			wf.cutRows = nil
 			wf.pieces = false
 			piecesSince = false
 			vt.T.Lock()
@@ -609,6 +620,7 @@ func runCase(id string, seed uint64, grid bool, mode int, nops int, wide, comb b
 		rg.Y, rg.Y2 = clamp(rg.Y, 0, h), clamp(rg.Y2, 0, h)
 		cut := false
 		badIn, badOut := 0, 0
+		badRows := map[int]bool{} // rows holding a cell that differs
 		firstIn, firstOut := "", ""
 		for y := 0; y < oh; y++ {
 			for x := 0; x < ow; x++ {
@@ -616,12 +628,14 @@ func runCase(id string, seed uint64, grid bool, mode int, nops int, wide, comb b
 				if inside {
 					if !cellEq(at(ou, x, y), at(in, x, y)) {
 						badIn++
+						badRows[y] = true
 						if firstIn == "" {
 							firstIn = fmt.Sprintf("(%d,%d) outer %q/%d inner %q/%d", x, y, at(ou, x, y).Text, at(ou, x, y).Width, at(in, x, y).Text, at(in, x, y).Width)
 						}
 					}
 				} else if !cellEq(at(ou, x, y), fillCell) {
 					badOut++
+					badRows[y] = true
 					if firstOut == "" {
 						firstOut = fmt.Sprintf("(%d,%d) outer %q/%d", x, y, at(ou, x, y).Text, at(ou, x, y).Width)
 					}
@@ -630,7 +644,10 @@ func runCase(id string, seed uint64, grid bool, mode int, nops int, wide, comb b
 		}
 		for y := rg.Y; y < rg.Y2; y++ {
 			if rg.X < rg.X2 && (at(in, rg.X, y).Width == 0 || (rg.X2 < w && at(in, rg.X2, y).Width == 0)) {
-				cut = true
+				if wf.cutRows == nil {
+					wf.cutRows = map[int]bool{}
+				}
+				wf.cutRows[y] = true
 			}
 		}
 		if id == traceID {
@@ -654,8 +671,15 @@ func runCase(id string, seed uint64, grid bool, mode int, nops int, wide, comb b
 				fmt.Printf("T   outer |%s|   inner |%s|\n", a.String(), b.String())
 			}
 		}
-		cutSince = cutSince || cut || wf.cutSeen
-		cut = cutSince
+		// the differences are the known cut-glyph finding only if every row that differs had a glyph cut by a range or
+		// region edge since the last Attach (the outer terminal is never scrolled: the damage stays in its row)
+		cut = len(badRows) > 0
+		for y := range badRows {
+			if !wf.cutRows[y] {
+				cut = false
+			}
+		}
+		_ = cutSince
 		piecesSince = piecesSince || wf.pieces
 		if mode == 1 && !piecesSince && (in.WidthMismatches > 0 || !in.RowsOK) {
 			// span buffer: the cells of the snapshot are the stored text segmented again; a run that does not fill
